@@ -15,7 +15,7 @@ Section StepsB2.
 
   Lemma S_newrec g a tr t : vb_new (bvs a t) = None -> JB c g a tr -> JB c (fst (new_rec c g)) (aux_newrec a t (List.length (recs g))) tr.
   Proof.
-    intros Hnn [[O1 O2 O3 O4 O5] K1 [R1 R2 R3 R4 R5 R6] [W1 W2 W3 W4 W5 W6 W7]].
+    intros Hnn [[O1 O2 O3 O4 O5] K1 [R1 R2 R3 R4 R5 R6] [W1 W2 W3 W4 W5 W6 W7 W8 W9]].
     remember (List.length (recs g)) as r eqn:Er. remember (fst (new_rec c g)) as g' eqn:Eg'.
     assert (El : List.length (recs g') = S r) by (subst g' r; unfold new_rec; cbn; rewrite app_length; cbn; lia).
     assert (Eo : forall r', r' < r -> grec g' r' = grec g r') by (intros r' L; subst g' r; apply grec_newrec_old; exact L).
@@ -87,7 +87,7 @@ Section StepsB2.
         destruct (Nat.eq_dec r' r) as [->|N]; [now rewrite !fn_same|]. rewrite !fn_other by exact N. apply (W6 t' r').
         * revert Hm. unfold fn. destruct (Nat.eqb_spec t' t) as [->|]; cbn; auto.
         * revert Hc. unfold fn. destruct (Nat.eqb_spec t' t) as [->|]; cbn; auto.
-      + assert (Eob : oob g' = oob g) by (subst g'; reflexivity). rewrite Eob. intros Hoob. destruct (W7 Hoob) as [C1 C2 C3 C4 C5 C6].
+      + assert (Eob : oob g' = oob g) by (subst g'; reflexivity). rewrite Eob. intros Hoob. destruct (W7 Hoob) as [C1 C2 C3 C4 C5 C6 C7].
         constructor; cbn [aux_newrec bvs wh tl rch].
         * exact C1.
         * intros p r' H. destruct (C2 p r' H) as (X1 & X2). rewrite <- Er in X1. split; [lia|].
@@ -103,6 +103,11 @@ Section StepsB2.
         * intros t' r' nx. unfold fn at 1. destruct (Nat.eqb_spec t' t) as [->|]; cbn.
           -- intros E. inversion E; subst. now rewrite fn_same.
           -- intros E. unfold fn. destruct (Nat.eqb_spec r' r); [reflexivity|]. eapply C6; eauto.
+        * intros t' r' H. assert (H' : vb_arr (bvs a t') = Some r') by (revert H; unfold fn; destruct (Nat.eqb_spec t' t) as [->|]; cbn; auto).
+          destruct (C7 t' r' H') as (X1 & X2). split; [unfold fn; destruct (Nat.eqb_spec t' t) as [->|]; cbn; auto|].
+          rewrite fn_other; auto. eapply Hown; eauto.
+      + subst g'. exact W8.
+      + apply (JH_frame a _ tr tr); auto. intros t'. cbn [bvs aux_newrec]. unfold fn. destruct (Nat.eqb_spec t' t) as [->|]; auto.
   Qed.
 
   (** thread_id_.store( me ) on the record just created *)
